@@ -65,6 +65,7 @@ type runtime struct {
 	labels       []string
 	stackLimit   int
 	traceLimit   int
+	convertDepth int // nesting of convertCallParameter
 	lck          sync.Mutex
 }
 
@@ -388,6 +389,14 @@ func (rt *runtime) convertCallParameter(v Value, t reflect.Type) (reflect.Value,
 		return reflect.ValueOf(v), nil
 	}
 
+	// The conversion descends into containers and struct fields: an object
+	// that contains itself, converted to a recursive Go type, has no end.
+	if rt.convertDepth++; rt.convertDepth > 1000 {
+		rt.convertDepth--
+		return reflect.Zero(t), errors.New("the value is nested too deeply (or contains itself)")
+	}
+	defer func() { rt.convertDepth-- }()
+
 	if t == typeOfJSONRawMessage {
 		if d, err := json.Marshal(v.export()); err == nil {
 			return reflect.ValueOf(d), nil
@@ -649,6 +658,10 @@ func (rt *runtime) convertCallParameter(v Value, t reflect.Type) (reflect.Value,
 				sv, err := fn.Call(v)
 				if err != nil {
 					return reflect.Zero(t), fmt.Errorf("couldn't call toString: %w", err)
+				}
+				if sv.IsObject() {
+					// As in ToPrimitive: not converted again (toString may return its own object).
+					return reflect.Zero(t), errors.New("toString did not return a primitive value")
 				}
 
 				r, err := rt.convertCallParameter(sv, t)
